@@ -5,11 +5,11 @@ CHECK = {
   'level_text': 'Xml::decode is one function with local state, so its states cannot be observed; the input space is enumerated instead. '
                 'Decode: every string over {< > / ! ? - & ; # x a = " \' space e-acute} up to the length bound; every byte-prefix of every sequence of the tokens '
                 '<a </a </ > /> " x=" " \' v &lt; &#38; &#x26; &bad; & <!-- --> "<?p " ?> <!D <![CDATA[ ]]> t space up to the token bound (= sequences also truncated at every byte); '
-                '"<?xml" followed by every alphabet string; every string of arbitrary non-NUL bytes up to length 2/3; three documents (prolog, DOCTYPE with internal subset, comments, PI, CDATA, '
+                'every sequence of up to 6/7 whole tags and text runs out of <a> <b> </a> </b> </> <a/> <b x="&#38;" y=\'v\'> t space &amp; <!--c--> (deeper stacks, end tags closing more than was opened, mixed content); "<?xml" followed by every alphabet string; every string of arbitrary non-NUL bytes up to length 2/3; three documents (prolog, DOCTYPE with internal subset, comments, PI, CDATA, '
                 'entity/decimal/hex references, single- and double-quoted attributes, names with : - . _ and non-ASCII) with every truncation, every 1-edit and every pair of edits within a window, and every single byte '
                 'substituted/inserted at every position. For each input: the call returns (per-item alarm), ASan is silent, and the result is null or a tree in which every child(i).parent() == the containing element, '
                 'checked over the whole tree through the public API. '
-                'Round trip: every tree with <= 2 (thorough 3) nodes over the full label sets (2 tags x {no attribute, x, y, x+y} x 9 values each = 200 element labels, 9 texts incl. "", & < > " \' e-acute, " v "); '
+                'Round trip: every tree with <= 2 nodes over the full label sets (2 tags x {no attribute, x, y, x+y} x 9 values each = 200 element labels, 9 texts: "", v, & < > " \' e-acute, " v "), thorough also every 3-node tree whose two non-root nodes range over the full label sets; '
                 'every ordered tree shape with <= 5 nodes over 8 element labels (tag x attribute subset, values rotating through the 9 values) and all 9 texts, thorough also 6 nodes over 4 element labels; '
                 'linear chains to depth 12 with attributes on every level (also with names using : - . _ digits and non-ASCII) and each text as leaf. Each tree is encoded compact, decoded and compared '
                 '(tags, attribute sets, child order, text) modulo merging adjacent text nodes and dropping whitespace-only text (either order of the two operations is accepted); the indented output is checked in the same way '
@@ -20,9 +20,9 @@ CHECK = {
   'rule': 'odometer enumeration: alphabet^<=n strings; (k complete tokens) + (one of the 52 distinct non-empty token prefixes); byte^<=n; template x position x edit; pre-order token strings of labelled trees; '
           'distinct_nontrivial = distinct inputs / trees by construction (token strings that already lie in the character space, edit neighbourhoods and chain truncations are counted in evaluations only)',
   'parts': [{'bin': 'c07_xml', 'flavour': 'asan', 'deadline': {'quick': 900, 'thorough': 3600}}],
-  'bounds': {'quick': 'alphabet strings <= 5 symbols (1.1e6); token sequences <= 5 tokens with every byte cut (1.5e7); "<?xml" + <= 4 symbols; bytes^<=2; 3 documents: truncations, 1-edits, 2-edits within 3 positions, all single bytes; '
+  'bounds': {'quick': 'alphabet strings <= 5 symbols (1.1e6); token sequences <= 5 tokens with every byte cut (1.5e7); "<?xml" + <= 4 symbols; bytes^<=2; tag sequences <= 6 (1.9e6); 3 documents: truncations, 1-edits, 2-edits within 3 positions, all single bytes; '
                       'trees: <= 2 nodes full labels (4.2e4), <= 5 nodes x 8 element labels x 9 texts (3.6e6), chains to depth 12',
-             'thorough': 'alphabet strings <= 6 symbols (1.8e7); token sequences <= 6 tokens with every byte cut (3.5e8); "<?xml" + <= 5 symbols; bytes^<=3 (1.7e7); 2-edits within 12 positions; '
-                         'trees: <= 3 nodes full labels (1.7e7), <= 5 nodes x 8 labels, 6 nodes x 4 labels (9.3e6), chains to depth 12'},
+             'thorough': 'alphabet strings <= 6 symbols (1.8e7); token sequences <= 6 tokens with every byte cut (3.5e8); "<?xml" + <= 5 symbols; bytes^<=3 (1.7e7); tag sequences <= 7 (2.1e7); 2-edits within 12 positions; '
+                         'trees: <= 2 nodes full labels, 3 nodes with 8 root labels x full labels for the other two (6.8e5), <= 5 nodes x 8 labels, 6 nodes x 4 labels (9.3e6), chains to depth 12'},
   'assumptions': ['LC_ALL=C', 'g++ -O2 + AddressSanitizer (recover mode), slack after each input NUL poisoned', 'null element = Xml for which operator! is true (what decode documents as failure)'],
 }
